@@ -108,6 +108,14 @@ func docFor(c *simkit.Choices, te *model.TypeEntry, f model.Format, val interfac
 	if err != nil {
 		return nil
 	}
+	if v.K == model.VObj && c.N(2) == 0 {
+		// members the target type does not know: their values are skipped by
+		// the unfolder's ignore states (package-level singletons)
+		for i, n := 0, 1+c.N(3); i < n; i++ {
+			v.Keys = append(v.Keys, fmt.Sprintf("zz_unknown_%d", i))
+			v.A = append(v.A, unknownValue(c, 0))
+		}
+	}
 	fv, ok := model.ForFormat(v, f)
 	if !ok {
 		return nil
@@ -119,6 +127,27 @@ func docFor(c *simkit.Choices, te *model.TypeEntry, f model.Format, val interfac
 		return model.WriteCBORStream(c, []model.Val{fv}).Bytes
 	}
 	return model.WriteUBJSONStream(c, []model.Val{fv}, model.DrawUBStyle(c)).Bytes
+}
+
+func unknownValue(c *simkit.Choices, depth int) model.Val {
+	switch c.N(6) {
+	case 0:
+		return model.Int(int64(c.N(1000)))
+	case 1:
+		return model.Bool(c.Bool())
+	case 2:
+		return model.Val{K: model.VNull}
+	case 3, 4:
+		a := model.Val{K: model.VArr}
+		if depth < 3 {
+			for i, n := 0, c.N(4); i < n; i++ {
+				a.A = append(a.A, unknownValue(c, depth+1))
+			}
+		}
+		return a
+	default:
+		return model.Int(int64(-c.N(100)))
+	}
 }
 
 func drawReads(c *simkit.Choices) []int {
@@ -142,7 +171,7 @@ func genShared(c *simkit.Choices) *shared {
 	s := &shared{}
 	// the first shared value always contains model.Inner, the type for which
 	// tasks register different custom folders/unfolders
-	inner := []string{"Nested", "Tagged", "Inner", "[]*Inner"}
+	inner := []string{"Holder", "Nested", "Tagged", "Inner", "[]*Inner", "Holder", "Wide"}
 	te0 := model.TypeByName(inner[c.N(len(inner))])
 	s.types = append(s.types, te0)
 	s.vals = append(s.vals, te0.Gen(c))
@@ -198,7 +227,7 @@ func foreignMarker(s, kind string, own int) string {
 }
 
 func genOp(c *simkit.Choices, sh *shared, taskIdx int) *op {
-	kind := c.N(7)
+	kind := c.N(8)
 	switch kind {
 	case 0: // fold -> encoder -> writer
 		i := c.N(len(sh.vals))
@@ -348,13 +377,16 @@ func genOp(c *simkit.Choices, sh *shared, taskIdx int) *op {
 					return []interface{}{w.Buf, err}
 				})
 			}}
-	default: // per-instance custom unfolder for a shared Go type
+	case 6: // per-instance custom unfolder for a shared Go type, inside a shared enclosing type
 		variant := taskIdx*2 + c.N(2)
 		s := model.GenText(c, 10)
 		return &op{desc: OpDesc{Kind: "custom-unfolder", Variant: variant},
 			check: func(r string, _ []interface{}) string {
-				if !strings.Contains(r, marker("u", variant)) && !strings.Contains(r, "err=") {
-					return "result lacks the marker of this unfolder's own custom unfolder " + marker("u", variant)
+				if strings.Contains(r, "err=") {
+					return "the stream of strings is refused although this unfolder registered a string unfolder for model.Inner"
+				}
+				if strings.Count(r, marker("u", variant)) != 5 {
+					return "result does not carry this unfolder's own marker " + marker("u", variant) + " in all 5 Inner positions"
 				}
 				if m := foreignMarker(r, "u", variant); m != "" {
 					return "result carries the marker of ANOTHER unfolder's custom unfolder: " + m
@@ -363,23 +395,47 @@ func genOp(c *simkit.Choices, sh *shared, taskIdx int) *op {
 			},
 			run: func(yield func()) []interface{} {
 				return guard(func() []interface{} {
-					var to struct {
-						A model.Inner
-						L []model.Inner
-					}
+					var to model.Holder
 					u, err := gotype.NewUnfolder(&to, gotype.Unfolders(innerUnfolder(variant)))
 					if err != nil {
 						return []interface{}{err}
 					}
 					t := yieldingTap(u, yield)
 					evs := []simkit.Ev{{K: simkit.KObjStart, I: -1}, {K: simkit.KKey, S: "a"}, {K: simkit.KStr, S: s},
-						{K: simkit.KKey, S: "l"}, {K: simkit.KArrStart, I: -1}, {K: simkit.KStr, S: s + "1"}, {K: simkit.KStr, S: s + "2"}, {K: simkit.KArrEnd}, {K: simkit.KObjEnd}}
+						{K: simkit.KKey, S: "l"}, {K: simkit.KArrStart, I: -1}, {K: simkit.KStr, S: s + "1"}, {K: simkit.KStr, S: s + "2"}, {K: simkit.KArrEnd},
+						{K: simkit.KKey, S: "p"}, {K: simkit.KStr, S: s + "3"},
+						{K: simkit.KKey, S: "m"}, {K: simkit.KObjStart, I: -1}, {K: simkit.KKey, S: "k"}, {K: simkit.KStr, S: s + "4"}, {K: simkit.KObjEnd},
+						{K: simkit.KObjEnd}}
 					for _, e := range evs {
 						if err := simkit.Emit(t, e, false); err != nil {
 							return []interface{}{err}
 						}
 					}
 					return []interface{}{to}
+				})
+			}}
+	default: // a generated event stream (all event kinds, extended events, uint64 above MaxInt64) into an encoder
+		f := model.Formats[c.N(3)]
+		cd := common.ByName(f)
+		oo := model.OpsOpts{Extended: true, NonFinite: f != model.JSON, BigUint: true, Hints: true, MaxDepth: 3, Budget: 10, MaxStr: 30}
+		ops := model.GenOps(c, oo)
+		if c.Bool() {
+			// two values that UBJSON writes through its high-precision path
+			big := []model.Op{{Ev: simkit.Ev{K: simkit.KArrStart, I: -1}},
+				{Ev: simkit.Ev{K: simkit.KUint64, U: model.GenUintBig(c).U}}, {Ev: simkit.Ev{K: simkit.KUint64, U: model.GenUintBig(c).U}}}
+			ops = append(append(big, ops...), model.Op{Ev: simkit.Ev{K: simkit.KArrEnd}})
+		}
+		return &op{desc: OpDesc{Kind: "events-encode", Format: string(f), Values: len(ops)},
+			run: func(yield func()) []interface{} {
+				return guard(func() []interface{} {
+					w := yieldingWriter(yield)
+					enc := structform.EnsureExtVisitor(cd.NewVisitor(w))
+					for _, o := range ops {
+						if err := model.Apply(enc, o); err != nil {
+							return []interface{}{w.Buf, err}
+						}
+					}
+					return []interface{}{w.Buf, nil}
 				})
 			}}
 	}
